@@ -65,7 +65,8 @@ def run_story(story, choices_seed, handler, scratch, sliced=False):
                 e = sess.send(["errors"]).get("v") or []
                 msgs = [("E", m) for m in e] + [("W", m) for m in w[seen_w:]]
                 seen_w = len(w)
-            per_cont.append({"ok": r.get("r") == "ok", "msgs": msgs})
+            # (a continue can also be refused as a host call - unbound externals, say - without any story error)
+            per_cont.append({"ok": r.get("r") == "ok", "msgs": msgs, "story_error": "Ink had" in str(r.get("m", ""))})
             if r.get("r") != "ok":
                 status = "error"
                 break
@@ -77,8 +78,11 @@ def run_story(story, choices_seed, handler, scratch, sliced=False):
             break
         sess.send(["choose", rng.randrange(len(cs))])
     # after the end / an error: further continues must not deliver anything again
+    # (a story that was only cut short by the turn limit goes on, and may well raise new messages)
     tail = []
     for _ in range(2):
+        if status == "turns":
+            break
         r = sess.send(["cont"])
         tail.append([e for e in (r.get("ev") or []) if e and e[0] == "handler"])
     sess.send(["errors"]); sess.send(["warnings"]); sess.send(["haserror"]); sess.send(["can"])
@@ -112,7 +116,7 @@ def one_case(job):
                                        "why": "a message was lost, duplicated or re-delivered"},
                                       {"kind": "delivery"}))
             break
-        if not y["ok"] and not any(k == "E" for k, _ in y["msgs"]):
+        if not y["ok"] and y.get("story_error") and not any(k == "E" for k, _ in y["msgs"]):
             res["violations"].append(({"story": desc, "choices_seed": cseed, "continue_no": i,
                                        "why": "a continue failed without an error message"}, {"kind": "err-without-error"}))
             break
